@@ -7,7 +7,7 @@ VERIF = os.path.dirname(os.path.dirname(os.path.abspath(__file__)))
 CHECKS = {
     "C01": ("spec/SieveGrammar.tla reference recogniser; SieveEnum exhaustive per vocabulary slice (TLC) replayed into Parser.parse under layouts/suffixes; TLC judges suite + seeded scripts (SieveTrace)",
             "verdict of Parser.parse = verdict of the TLA+ reference recogniser for every token sequence TLC enumerates within the bound and for every recorded script; design-level invariants (determinism, progress, gating) model-checked",
-            "bounds per slice in evidence; renderer/lexref/projection trusted; dontcare zones DESIGN 2.5", "4/C01"),
+            "bounds per slice in evidence; renderer/lexref/projection trusted; dontcare zones DESIGN 2.4", "4/C01"),
     "C02": ("same behaviours as C01 + byte-level mutants: outcome class, lexer-step count, shape of error/error_pos checked on every execution",
             "every replayed execution must return True/False within a linear step bound and with well-formed error/error_pos; TLC proves the reference takes one step per token (Progress)",
             "hang detection by deterministic step cap in a lexer proxy; wall-clock not measured", "4/C02"),
